@@ -1,10 +1,11 @@
 From Coq Require Import Extraction ExtrOcamlBasic NArith.
-From DV Require Import Base.Outcome C18.Gen C18.Model.
+From DV Require Import Base.Outcome C18.Gen C18.Model C18.ModelName.
 Extraction Language OCaml.
 Extraction "../build/ml/C18/model.ml" c18_enc64 c18_enc32 c18_enc16 c18_dec64 c18_dec32 c18_dec16
   c18_push64 c18_push32 c18_push16 c18_deccap64 c18_deccap32 c18_deccap16
   c18_pushcap64 c18_pushcap32 c18_pushcap16 c18_tok64 c18_tok32 c18_tok16 c18_ent64 c18_ent32 c18_ent16
-  c18_soct c18_scstr c18_sstr c18_sascii c18_scent c18_ssym c18_sesym c18_smark c18_encw64 c18_encw16
+  c18_soct c18_scstr c18_sstr c18_sascii c18_scent c18_ssym c18_sesym c18_smark c18_encw64 c18_encw16 c18_encw32
   c18_serc c18_saltcd c18_hashcd
+  c18_sname
   c18_saltstr c18_saltdisp c18_saltscan c18_hashstr c18_hashdisp c18_hashscan c18_conv64 c18_conv32 c18_conv16
   c18_spec_enc64 c18_spec_enc32 c18_spec_enc16 c18_spec_dec64 c18_spec_dec32 c18_spec_dec16.
